@@ -192,6 +192,110 @@ fn observe(d: &CoreDocument) -> Model {
   }
 }
 
+/// [gate] every placement of two ids over verificationMethod, two relationships (absent / embedded / referenced) and the
+/// services, handed to the deserialisation gate and to the builder: accepted iff the set-of-entries model has no clash
+fn gate_battery(log: &mut Vec<String>) {
+  let ids = ["did:example:doc#a", "did:example:doc#b"];
+  let method = |id: &str| {
+    let frag = &id[id.find('#').unwrap()..];
+    let m = VerificationMethod::new_from_jwk(CoreDID::parse("did:example:doc").unwrap(), method_key("did:example:doc", frag), Some(frag)).unwrap();
+    serde_json::from_str::<serde_json::Value>(&m.to_json().unwrap()).unwrap()
+  };
+  let svc = |id: &str| serde_json::json!({"id": id, "type": "T", "serviceEndpoint": "https://example.com/"});
+  for code in 0..(4 * 9 * 9 * 4) {
+    let (vm, a1, a2, sv) = (code % 4, (code / 4) % 9, (code / 36) % 9, code / 324);
+    let mut doc = serde_json::json!({"id": "did:example:doc"});
+    let mut all: Vec<(usize, &str, u8)> = Vec::new(); // (id index, collection, 0 general / 1 embedded / 2 reference / 3 service)
+    let mut vms = Vec::new();
+    for i in 0..2 {
+      if vm >> i & 1 == 1 {
+        vms.push(method(ids[i]));
+        all.push((i, "vm", 0));
+      }
+    }
+    if !vms.is_empty() {
+      doc["verificationMethod"] = serde_json::Value::Array(vms);
+    }
+    for (key, cfg) in [("authentication", a1), ("assertionMethod", a2)] {
+      let mut arr = Vec::new();
+      for i in 0..2 {
+        match (cfg / [1, 3][i]) % 3 {
+          1 => {
+            arr.push(method(ids[i]));
+            all.push((i, key, 1));
+          }
+          2 => {
+            arr.push(serde_json::Value::String(ids[i].to_owned()));
+            all.push((i, key, 2));
+          }
+          _ => {}
+        }
+      }
+      if !arr.is_empty() {
+        doc[key] = serde_json::Value::Array(arr);
+      }
+    }
+    let mut svs = Vec::new();
+    for i in 0..2 {
+      if sv >> i & 1 == 1 {
+        svs.push(svc(ids[i]));
+        all.push((i, "service", 3));
+      }
+    }
+    if !svs.is_empty() {
+      doc["service"] = serde_json::Value::Array(svs);
+    }
+    let mut clash = false;
+    for i in 0..2 {
+      let of: Vec<u8> = all.iter().filter(|e| e.0 == i).map(|e| e.2).collect();
+      let methods = of.iter().filter(|k| **k != 3).count();
+      let embedded = of.iter().filter(|k| **k == 1).count();
+      if embedded > 0 && methods > 1 {
+        clash = true; // an embedded method shares its id with another embedded method, a general method or a reference
+      }
+      if of.contains(&3) && methods > 0 {
+        clash = true; // service id equal to a method id
+      }
+    }
+    let text = doc.to_string();
+    match CoreDocument::from_json(&text) {
+      Ok(d) => {
+        if clash {
+          log.push(format!("[gate] deserialisation accepted a document with an id clash: {text}"));
+        } else if CoreDocument::from_json(&d.to_json().unwrap()).ok().as_ref() != Some(&d) {
+          log.push(format!("[gate] accepted document does not round-trip: {text}"));
+        }
+      }
+      Err(_) if !clash => log.push(format!("[gate] deserialisation refused a document without any clash: {text}")),
+      Err(_) => {}
+    }
+    if log.len() > 6 {
+      return;
+    }
+  }
+  // the builder goes through the same gate
+  let did = CoreDID::parse("did:example:doc").unwrap();
+  let mk = |f: &str| VerificationMethod::new_from_jwk(did.clone(), method_key("did:example:doc", f), Some(f)).unwrap();
+  let service = |f: &str| {
+    Service::builder(Object::new()).id(DIDUrl::parse(format!("did:example:doc{f}")).unwrap()).type_("T").service_endpoint(Url::parse("https://example.com/").unwrap()).build().unwrap()
+  };
+  let b = || CoreDocument::builder(Object::new()).id(did.clone());
+  let cases: Vec<(&str, bool, identity_document::document::DocumentBuilder)> = vec![
+    ("general method and service share an id", false, b().verification_method(mk("#a")).service(service("#a"))),
+    ("embedded method and service share an id", false, b().authentication(mk("#a")).service(service("#a"))),
+    ("referenced id and service share an id", false, b().authentication(DIDUrl::parse("did:example:doc#a").unwrap()).service(service("#a"))),
+    ("general method and embedded method share an id", false, b().verification_method(mk("#a")).assertion_method(mk("#a"))),
+    ("embedded twice", false, b().authentication(mk("#a")).key_agreement(mk("#a"))),
+    ("embedded and referenced", false, b().authentication(mk("#a")).capability_invocation(DIDUrl::parse("did:example:doc#a").unwrap())),
+    ("general method referenced twice plus an unrelated service", true, b().verification_method(mk("#a")).authentication(DIDUrl::parse("did:example:doc#a").unwrap()).capability_delegation(DIDUrl::parse("did:example:doc#a").unwrap()).service(service("#b"))),
+  ];
+  for (what, ok, builder) in cases {
+    if builder.build().is_ok() != ok {
+      log.push(format!("[gate] builder: {what}: expected accepted = {ok}"));
+    }
+  }
+}
+
 fn tag(op: Op) -> &'static str {
   match op {
     Op::InsertMethod(..) => "[insert]",
@@ -227,6 +331,7 @@ pub fn document_ops(cex: &Value) -> Result<String, String> {
     // a reference whose target is not in the document (legal: it may live in another document), then every insertion
     universes.push((2, 5, 2, vec![Op::Dangling(0, 0)]));
     universes.push((2, 5, 1, vec![Op::Dangling(0, 2), Op::Dangling(1, 4)]));
+    gate_battery(&mut log);
     for (n_ids, n_rels, depth, prefix) in universes {
     let mut ops = Vec::new();
     for i in 0..n_ids {
